@@ -47,3 +47,15 @@ Definition keep_tail {A} (tail : nat) (l : list A) : list A :=
 (* what is searchable after the whole stream was read *)
 Definition searchable (read0 : bool) (hl tail : nat) (s : str) : list item :=
   keep_tail tail (items_of hl (split_records (delim_of read0) s)).
+
+(* what `fzf --filter ''` lists (the empty query matches every item and gives nothing to rank by): the
+   searchable items in stream order, newest first under --tac.  Which of fzf's internal filter paths
+   (--no-sort, --sync, ...) produces the listing must not matter. *)
+Definition filter_listing (read0 tac : bool) (hl tail : nat) (s : str) : list item :=
+  let l := searchable read0 hl tail s in if tac then rev l else l.
+
+(* an interactive session that replaces its input (reload / reload-sync): once a stream has been read
+   completely, the list is the reading of THAT stream alone - numbered from its own start - whatever
+   was loaded before it *)
+Definition session_views (read0 : bool) (hl tail : nat) (streams : list str) : list (list item) :=
+  map (searchable read0 hl tail) streams.
